@@ -3,6 +3,7 @@ from __future__ import annotations
 
 import asyncio
 import itertools
+import json
 import struct
 from unittest import mock
 
@@ -10,18 +11,29 @@ from cryptography.exceptions import InvalidTag
 from cryptography.hazmat.primitives.ciphers.aead import ChaCha20Poly1305
 
 from harness import refacc, simnet
+from harness.acc import Accessory
 from harness.common import Ctx, Driver, compare_with_model, hx, load_corpus
+from harness.rcsim import settle
 
 import aiohomekit.controller.ble.pairing as blep
 import aiohomekit.controller.coap.connection as coapc
 import aiohomekit.controller.ip.connection as ipc
+from aiohomekit.characteristic_cache import CharacteristicCacheMemory
+from aiohomekit.controller.coap.structs import Pdu09Database
+from aiohomekit.controller.ip.pairing import IpPairing
+from aiohomekit.exceptions import AccessoryDisconnectedError
 from aiohomekit.pdu import OpCode
 
 ID = "C06"
 RULE = ("per transport, EXHAUSTIVE event sequences to depth 5 (quick) / 6 (thorough) over {send n, deliver genuine next, replay of an earlier genuine message, a message with a future counter, "
         "a corrupted message, cancel/timeout} + random sequences to length 40; real ChaCha20-Poly1305 under one key, the harness plays the accessory and records every (nonce) the "
         "controller seals with and every ciphertext that yields plaintext; BLE additionally over histories of 2..5 sessions (full pair-verify, honoured / ignored pair-resume, traffic, a failing last exchange, "
-        "responses recorded in the previous session) with real key agreement against a reference accessory. non-trivial = distinct event sequence")
+        "responses recorded in the previous session) with real key agreement against a reference accessory; "
+        "IP whole sessions end to end (stream ip-session: real IpPairing + pair-verify + HTTP layer + listeners; the accessory seals events and responses of one or several blocks, the network delivers the next frame, "
+        "replays, future frames - also the same one repeatedly -, bit-flipped and junk blocks, half frames, frames of the previous session, cancels, time-outs and reconnects, and KEEPS delivering after a failed block for as long as "
+        "the library keeps the session; exhaustive fault sequences to depth 3 (quick) / 4 + random histories; accepted blocks and the messages reaching listeners/callers must be a prefix of the accessory's own log); "
+        "BLE responses of 1..3 fragments with every GATT read answered by the radio (stream ble-reads: next / replay / future / corrupted / cancelled, continuing after a failure); "
+        "CoAP events also through EventResource.render_put up to the owner's event_received (stream coap-event-resource). non-trivial = distinct event sequence")
 TRUSTED = ["cryptography ChaCha20Poly1305 as the accessory's cipher", "asyncio closes the transport when data_received raises (mimicked by the in-memory transport)"]
 ASSUMPTIONS = ["distinct pair-verify / pair-resume runs give distinct keys (HKDF of a fresh shared secret): on BLE this is observed, not assumed - the multi-session stream numbers key sets by their key bytes; "
                "on IP and CoAP every connection runs a full pair-verify (C01 checks its keys against the accessory's)",
@@ -41,13 +53,32 @@ def n_coap(c):
     return struct.pack("=4xQ", c)
 
 
+class _IpOwner:
+    """stands in for the IpPairing that owns a bare HomeKitConnection"""
+    name = "c06"
+    description = None
+
+    def __init__(self):
+        self.events = []
+
+    async def connection_made(self, secure):
+        return None
+
+    def event_received(self, parsed):
+        self.events.append(parsed)
+
+
 # ---------------------------------------------------------------- IP
 def run_ip(loop, evs):
     """evs: list of ('s', n) | ('g', j) | ('x',) | ('a',) ; returns obs tokens"""
     obs = []
     net = simnet.Net(loop)
+    run_ip.net = net
 
-    class Conn:
+    class Conn(ipc.HomeKitConnection):
+        """the real connection object (every attribute the protocol may look at is there: name, owner, hosts, ...);
+        only the reaction to a lost transport is cut off - this stream has no network to reconnect to"""
+
         def _connection_lost(self, exc):
             pass
 
@@ -55,8 +86,10 @@ def run_ip(loop, evs):
             pass
 
     async def main():
-        p = ipc.SecureHomeKitProtocol(Conn(), KEY_A2C, KEY_C2A)
-        t = simnet.FakeTransport(net, "h", p, loop)
+        conn = Conn(_IpOwner(), ["10.0.0.1"], 80)
+        p = ipc.SecureHomeKitProtocol(conn, KEY_A2C, KEY_C2A)
+        t = simnet.FakeTransport(net, "10.0.0.1", p, loop)
+        conn.transport, conn.protocol, conn.connected_host, conn.host_header, conn.is_secure = t, p, "10.0.0.1", "Host: 10.0.0.1", True
         p.connection_made(t)
         orig_enc = p.encryptor.encrypt
 
@@ -111,6 +144,313 @@ def run_ip(loop, evs):
     return obs
 
 
+# ---------------------------------------------------------------- IP, whole sessions end to end
+def _http_msg(kind, mid, pad):
+    """one HTTP message of the accessory: an EVENT or the response to a request; `mid` is its serial number in the
+    accessory's log, `pad` bytes of an extra header make it span several encrypted blocks"""
+    if kind == "e":
+        body = json.dumps({"characteristics": [{"aid": 1, "iid": 9, "value": mid}]}).encode()
+        first = b"EVENT/1.0 200 OK"
+    else:
+        body = json.dumps({"m": mid, "characteristics": []}).encode()
+        first = b"HTTP/1.1 200 OK"
+    return (first + b"\r\nContent-Type: application/hap+json" + (b"\r\nX-Pad: " + b"p" * pad if pad else b"")
+            + b"\r\nContent-Length: %d\r\n\r\n" % len(body) + body)
+
+
+def run_ip_session(loop, evs, seed=0):
+    """A real IpPairing / SecureHomeKitConnection (real pair-verify against the scaffold accessory, real secure framing,
+    real HTTP layer, real listeners) on the in-memory network.  The accessory seals its messages (events, and the
+    response to every request it receives) into frames in its own order; the NETWORK decides what reaches the controller.
+    Tokens: q/Q a caller issues a request through get_json / put_json / post_json (small / multi-block response) ;
+    e/E the accessory emits an event (one block / several blocks) ; d<k> deliver frame number next+k of the current
+    session (k=0 the genuine next frame, k<0 a replay, k>0 a future frame) ; D deliver every frame from `next` on in one
+    segment ; m<k> a copy of frame next+k with one bit flipped ; j a block nobody sealed ; h<k> only the head of frame
+    next+k ; r the rest of that frame ; o<i> frame i of the PREVIOUS session ; c the caller of the request in flight is
+    cancelled ; T 31 s pass ; R the network lets the controller reconnect (new session, new keys).
+    `next` is harness bookkeeping only (how many frames were delivered in order so far) - the oracle does not use it.
+    Everything keeps being delivered after a failure: whether anything is still accepted is up to the library.
+    Returns the record the oracle works on."""
+    import random as _r
+    rnd = _r.Random(seed)
+    net = simnet.Net(loop)
+    rec = {"sessions": [], "aead": [], "nonces": [], "http": [], "abandoned": set(), "stats": {}, "crash": None}
+    by_ct = {}     # block+tag as sealed by the accessory -> (session number, frame number)
+    keyof = {}     # a2c key bytes -> session number
+    state = {"next": 0, "partial": None}
+
+    class SpyEnc(ipc.ChaCha20Poly1305Encryptor):
+        def __init__(self, key):
+            super().__init__(key)
+            self._c06_key = bytes(key)
+
+        def encrypt(self, aad, nonce, plaintext):
+            rec["nonces"].append((self._c06_key, bytes(nonce)))
+            return super().encrypt(aad, nonce, plaintext)
+
+    class SpyDec(ipc.ChaCha20Poly1305Decryptor):
+        def __init__(self, key):
+            super().__init__(key)
+            self._c06_key = bytes(key)
+
+        def decrypt(self, aad, nonce, ciphertext):
+            pt = super().decrypt(aad, nonce, ciphertext)
+            # the block authenticated: the controller accepted it, whatever happens to the plaintext afterwards
+            rec["aead"].append((self._c06_key, bytes(ciphertext)))
+            return pt
+
+    async def main():
+        acc = Accessory(loop, net, lambda n: bytes(rnd.randrange(256) for _ in range(n)))
+        big = set()
+        mid_counter = [0]
+
+        def sess_of(s):
+            """the accessory's log of one secure session"""
+            for x in rec["sessions"]:
+                if x["s"] is s:
+                    return x
+            x = {"s": s, "n": len(rec["sessions"]), "frames": [], "msgs": []}
+            rec["sessions"].append(x)
+            keyof[bytes(s.a2c)] = x["n"]
+            state["next"], state["partial"] = 0, None
+            return x
+
+        def cur():
+            secure = [s for s in acc.order if s.secure]
+            return sess_of(secure[-1]) if secure else None
+
+        def seal(s, kind, rid=None, pad=0):
+            x = sess_of(s)
+            mid = mid_counter[0]
+            mid_counter[0] += 1
+            x["msgs"].append({"mid": mid, "kind": kind, "rid": rid})
+            data = acc.frame(s, _http_msg(kind, mid, pad))
+            while data:
+                n = struct.unpack("<H", data[:2])[0]
+                fr, data = data[:2 + n + 16], data[2 + n + 16:]
+                by_ct[fr[2:]] = (x["n"], len(x["frames"]))
+                x["frames"].append(fr)
+
+        def responder(s, method, target, body):
+            rid = int(target.rsplit("/", 1)[1])
+            seal(s, "r", rid, rnd.choice([1100, 2300]) if rid in big else 0)
+            return None  # sealed, not delivered: the network decides
+        acc.responder = responder
+        orig_on_write = net.handler
+
+        def on_write(t, data):
+            try:
+                orig_on_write(t, data)
+            except InvalidTag:
+                # the accessory cannot authenticate what the controller sent under its next counter; it answers nothing
+                rec["stats"]["accessory-rejected-request"] = rec["stats"].get("accessory-rejected-request", 0) + 1
+        net.handler = on_write
+        ctrl = mock.MagicMock()
+        ctrl._char_cache = CharacteristicCacheMemory()
+        tasks = {}
+
+        def feed(data):
+            x = cur()
+            if x is None or x["s"].t.closing or x["s"].t.closed:
+                return
+            t = x["s"].t
+            if len(data) > 3 and rnd.random() < 0.25:
+                c = rnd.randrange(1, len(data))
+                t.feed(data[:c])
+                t.feed(data[c:])
+            else:
+                t.feed(data)
+
+        with net.patched(), mock.patch.object(ipc, "ChaCha20Poly1305Encryptor", SpyEnc), mock.patch.object(ipc, "ChaCha20Poly1305Decryptor", SpyDec):
+            p = IpPairing(ctrl, acc.pairing_data(["10.0.0.1"]))
+            conn = p.connection
+
+            def listener(ev):
+                for key, val in ev.items():
+                    x = cur()
+                    rec["http"].append((x["n"] if x else -1, val.get("value") if isinstance(val, dict) else repr(val)))
+            p.dispatcher_connect(listener)
+            await conn.ensure_connection()
+            await settle(loop)
+            net.connect_outcomes = ["refused"] * 100000
+            cur()
+            nreq = 0
+            for ev in evs:
+                k, arg = ev[0], (int(ev[1:]) if len(ev) > 1 else None)
+                x = cur()
+                frames = x["frames"] if x else []
+                if k in "qQ":
+                    rid = nreq
+                    nreq += 1
+                    if k == "Q":
+                        big.add(rid)
+
+                    async def caller(rid=rid):
+                        try:
+                            if rid % 3 == 0:
+                                r = await conn.get_json(f"/r/{rid}")
+                            elif rid % 3 == 1:
+                                r = await conn.put_json(f"/r/{rid}", {"characteristics": [{"aid": 1, "iid": 9, "value": rid}]})
+                            else:
+                                r = await conn.post_json(f"/r/{rid}", {"rid": rid})
+                        except asyncio.CancelledError:
+                            rec["abandoned"].add(rid)
+                            raise
+                        except BaseException as e:  # noqa: BLE001
+                            rec["abandoned"].add(rid)
+                            nm = "disconnected" if isinstance(e, AccessoryDisconnectedError) else type(e).__name__
+                            rec["stats"]["request-failed:" + nm] = rec["stats"].get("request-failed:" + nm, 0) + 1
+                            return
+                        y = cur()
+                        rec["http"].append((y["n"] if y else -1, r.get("m") if isinstance(r, dict) else repr(r)))
+                    tasks[rid] = asyncio.ensure_future(caller())
+                elif k in "eE":
+                    if x is not None:
+                        seal(x["s"], "e", None, rnd.choice([1100, 2300]) if k == "E" else 0)
+                elif k == "d":
+                    i = state["next"] + arg
+                    if 0 <= i < len(frames):
+                        in_order = arg == 0 and state["partial"] is None
+                        state["partial"] = None
+                        feed(frames[i])
+                        if in_order:
+                            state["next"] += 1
+                elif k == "D":
+                    if state["next"] < len(frames):
+                        clean = state["partial"] is None
+                        state["partial"] = None
+                        feed(b"".join(frames[state["next"]:]))
+                        if clean:
+                            state["next"] = len(frames)
+                elif k == "m":
+                    i = state["next"] + arg
+                    if 0 <= i < len(frames):
+                        b = bytearray(frames[i])
+                        pos = rnd.choice([0, 1, 2, len(b) // 2, len(b) - 16, len(b) - 1, rnd.randrange(len(b))])
+                        b[pos] ^= 1 << rnd.randrange(8)
+                        state["partial"] = None
+                        feed(bytes(b))
+                elif k == "j":
+                    n = rnd.choice([0, 1, 3, 40])
+                    state["partial"] = None
+                    feed(struct.pack("<H", n) + bytes(rnd.randrange(256) for _ in range(n + 16)))
+                elif k == "h":
+                    i = state["next"] + arg
+                    if 0 <= i < len(frames):
+                        c = rnd.choice([1, 2, 3, len(frames[i]) // 2, len(frames[i]) - 1])
+                        state["partial"] = (i, frames[i][c:]) if state["partial"] is None else None
+                        feed(frames[i][:c])
+                elif k == "r":
+                    if state["partial"] is not None:
+                        i, rest = state["partial"]
+                        state["partial"] = None
+                        feed(rest)
+                        if i == state["next"]:
+                            state["next"] += 1
+                elif k == "o":
+                    if x is not None and x["n"] >= 1 and arg < len(rec["sessions"][x["n"] - 1]["frames"]):
+                        state["partial"] = None
+                        feed(rec["sessions"][x["n"] - 1]["frames"][arg])
+                elif k == "c":
+                    live = [tk for tk in tasks.values() if not tk.done()]
+                    if live:
+                        live[0].cancel()
+                elif k == "T":
+                    await asyncio.sleep(31)
+                elif k == "R":
+                    if not conn.is_connected:
+                        net.connect_outcomes = ["ok"] + ["refused"] * 100000
+                        conn.reconnect_soon()
+                else:
+                    raise ValueError(ev)
+                await settle(loop)
+                cur()
+            for tk in tasks.values():
+                tk.cancel()
+            await asyncio.gather(*tasks.values(), return_exceptions=True)
+            await p.close()
+            await settle(loop)
+    try:
+        loop.run_until_complete(main())
+    except Exception as e:  # noqa: BLE001
+        # the library raised where the scenario does not expect it (set-up, close): keep what was observed, say so
+        rec["crash"] = f"{type(e).__name__}: {str(e)[:120]}"
+    rec["raised"] = list(net.data_received_raised)
+    return rec
+
+
+def oracle_ip_session(rec):
+    """the property, stated on the accessory's own log: per session key the blocks that authenticated are exactly the
+    frames 0,1,2,.. the accessory sealed under that key, each once, in order, with no gap (a prefix); what reached
+    listeners and callers is a prefix of the accessory's messages of that session (responses to requests whose caller
+    had given up left aside); no (key, nonce) pair is sealed twice"""
+    out = []
+    if rec["crash"]:
+        out.append(("ip-session/unexpected-exception", f"the library raised outside any request while the session was set up, used or closed: {rec['crash']}"))
+    keyof = {bytes(x["s"].a2c): x["n"] for x in rec["sessions"]}
+    by_ct = {fr[2:]: (x["n"], i) for x in rec["sessions"] for i, fr in enumerate(x["frames"])}
+    expect = {}
+    trace = []
+    for key, ct in rec["aead"]:
+        n = keyof.get(key)
+        if n is None:
+            continue  # not a key of any session the accessory agreed to (the keys themselves are C01's subject)
+        src = by_ct.get(ct)
+        trace.append("s%d:%s" % (n, "?" if src is None else ("f%d" % src[1] if src[0] == n else "s%d.f%d" % src)))
+        if src is None:
+            out.append(("ip-session/accepts-unsealed-block", f"session {n}: a block the accessory never sealed authenticated; accepted so far {trace}"))
+            break
+        if src[0] != n:
+            out.append(("ip-session/accepts-earlier-session", f"session {n}: frame {src[1]} of session {src[0]} authenticated; accepted so far {trace}"))
+            break
+        if src[1] != expect.get(n, 0):
+            out.append(("ip-session/accept-twice-or-out-of-order",
+                        f"session {n}: the accessory sealed frames 0..{len(rec['sessions'][n]['frames']) - 1}; the controller accepted {trace} - frame {src[1]} was accepted when only frame {expect.get(n, 0)} could be next"))
+            break
+        expect[n] = src[1] + 1
+    if len(set(rec["nonces"])) != len(rec["nonces"]):
+        dup = next(x for x in rec["nonces"] if rec["nonces"].count(x) > 1)
+        out.append(("ip-session/nonce-reuse", f"the controller sealed two blocks with nonce counter {struct.unpack('<LQ', dup[1])[1]} under one key; counters in order: {[struct.unpack('<LQ', n)[1] for k, n in rec['nonces'] if k == dup[0]]}"))
+    for x in rec["sessions"]:
+        want = [m["mid"] for m in x["msgs"] if not (m["kind"] == "r" and m["rid"] in rec["abandoned"])]
+        got = [mid for n, mid in rec["http"] if n == x["n"]]
+        ev_got = [mid for mid in got if any(m["mid"] == mid and m["kind"] == "e" for m in x["msgs"])]
+        if len(set(map(repr, got))) != len(got) or set(map(repr, got)) != set(map(repr, want[:len(got)])) or ev_got != sorted(ev_got):
+            out.append(("ip-session/message-accepted-twice-or-out-of-order",
+                        f"session {x['n']}: the accessory sent messages {[(m['kind'] + str(m['mid'])) for m in x['msgs']]} (responses to abandoned requests: {sorted(m['mid'] for m in x['msgs'] if m['kind'] == 'r' and m['rid'] in rec['abandoned'])}); "
+                        f"listeners and callers received {got} - not a prefix of what was sent, each once, in order"))
+            break
+    return out
+
+
+def account_ip_session(ctx, rec):
+    d = ctx.dist
+    d["ip-session:sessions"] += len(rec["sessions"])
+    d["ip-session:frames sealed by the accessory"] += sum(len(x["frames"]) for x in rec["sessions"])
+    d["ip-session:blocks accepted"] += len(rec["aead"])
+    d["ip-session:messages that reached listeners/callers"] += len(rec["http"])
+    d["ip-session:blocks sealed by the controller"] += len(rec["nonces"])
+    d["ip-session:histories with more than one session"] += len(rec["sessions"]) > 1
+    for nm in rec["raised"]:
+        d["ip-session:data_received raised " + nm] += 1
+    for k, v in rec["stats"].items():
+        d["ip-session:" + k] += v
+
+
+def gen_ip_session(rng):
+    """a random history: mostly genuine traffic, with faults after which delivery goes on"""
+    weighted = (["e"] * 4 + ["E"] + ["q"] * 3 + ["Q"] + ["d0"] * 9 + ["D"] * 2 + ["d1"] * 3 + ["d2"] + ["d-1"] * 2 + ["d-2"] + ["m0", "m1", "m-1", "j", "h0", "h1", "r", "r"]
+                + ["c", "T", "R", "R", "o0", "o1", "o2"])
+    evs = [rng.choice(["e", "e", "q"]) for _ in range(rng.randrange(1, 4))]
+    for _ in range(rng.randrange(4, 28)):
+        t = rng.choice(weighted)
+        evs.append(t)
+        if t in ("d1", "d2", "m0", "m1", "j") and rng.random() < 0.6:
+            # the shapes a lost / corrupted frame takes on the wire: the same future frame again, or the frames after it
+            evs.extend(rng.choice([[t], ["d1"], ["d1", "d1"], ["d2", "d2", "d2"], ["d1", "d2"], ["D"], ["d0"], [t, "d0", "d1"]]))
+    return evs
+
+
 # ---------------------------------------------------------------- BLE
 class _BleClient:
     is_connected = True
@@ -142,14 +482,20 @@ class _BleClient:
         self.is_connected = False
 
 
+def _mk_ble_pairing(pairing_data):
+    """a real BlePairing (every attribute its code may look at on an error path exists), without a radio"""
+    ctrl = mock.MagicMock()
+    ctrl._char_cache = CharacteristicCacheMemory()
+    return blep.BlePairing(ctrl, pairing_data)
+
+
 def run_ble(loop, evs):
     """events come in pairs: ('s', n) then one of ('g', j) / ('x',) / ('a',)  (a request and what the single response read returns)"""
     obs = []
 
     async def main():
-        p = blep.BlePairing.__new__(blep.BlePairing)
+        p = _mk_ble_pairing({"AccessoryAddress": "AA", "AccessoryPairingID": "x", "Connection": "BLE"})
         p._ble_request_lock = asyncio.Lock()
-        p.pairing_data = {"AccessoryAddress": "AA"}
         p.id = "x"
         p.device = None
         p.description = None
@@ -212,6 +558,132 @@ def run_ble(loop, evs):
     return obs
 
 
+# ---------------------------------------------------------------- BLE, responses of several fragments, the radio answers every read
+def run_ble_reads(loop, evs, seed=0):
+    """one BLE session.  `s<n>/<F>`: a request of n written fragments; the accessory seals its response as F fragments
+    (first fragment with the PDU header, then continuations), each under its next counter.  The tokens up to the next
+    request say what every GATT read of the controller returns: `n` the next fragment in order, `p<k>` the fragment k
+    before it again (replay), `f<k>` the fragment k after it (future), `m` the next fragment with one bit flipped, `x` a
+    fragment nobody sealed, `a` the read is cancelled; when the tokens run out the caller is cancelled.  Requests go on
+    for as long as the library keeps the keys and the link.  Returns {'accepted': [...], 'sealed': n, 'nonces': [...]}"""
+    import random as _r
+    rnd = _r.Random(seed)
+    rec = {"accepted": [], "nonces": [], "sealed": 0, "outcomes": [], "crash": None}
+
+    async def main():
+        p = _mk_ble_pairing({"AccessoryAddress": "AA", "AccessoryPairingID": "x", "Connection": "BLE"})
+        p._encryption_key = blep.EncryptionKey(KEY_C2A)
+        p._decryption_key = blep.DecryptionKey(KEY_A2C)
+        sealed = []
+        state = {"next": 0, "script": []}
+        orig_enc, orig_dec = p._encryption_key.key.encrypt, p._decryption_key.key.decrypt
+
+        def enc(aad, nonce, pt):
+            rec["nonces"].append(struct.unpack("<LQ", nonce)[1])
+            return orig_enc(aad, nonce, pt)
+
+        def dec(aad, nonce, ct):
+            pt = orig_dec(aad, nonce, ct)
+            rec["accepted"].append(sealed.index(bytes(ct)) if bytes(ct) in sealed else "?")
+            return pt
+        p._encryption_key.key.encrypt = enc
+        p._decryption_key.key.decrypt = dec
+
+        class Client(_BleClient):
+            async def read_gatt_char(self, handle):
+                if not state["script"]:
+                    raise asyncio.CancelledError()
+                tk = state["script"].pop(0)
+                k = int(tk[1:]) if len(tk) > 1 else 0
+                nx = state["next"]
+                if tk == "a":
+                    raise asyncio.CancelledError()
+                if tk == "n" and nx < len(sealed):
+                    state["next"] += 1
+                    return sealed[nx]
+                if tk[0] == "p" and 0 <= nx - k < len(sealed):
+                    return sealed[nx - k]
+                if tk[0] == "f" and nx + k < len(sealed):
+                    return sealed[nx + k]
+                if tk == "m" and nx < len(sealed):
+                    b = bytearray(sealed[nx])
+                    b[rnd.randrange(len(b))] ^= 1 << rnd.randrange(8)
+                    return bytes(b)
+                return bytes(rnd.randrange(256) for _ in range(rnd.choice([16, 19, 30])))
+        client = Client([], [])
+        p.client = client
+
+        class Char:
+            iid = 5
+            type = "t"
+
+            class service:
+                type = "s"
+        i = 0
+        while i < len(evs):
+            tk = evs[i]
+            i += 1
+            if tk[0] != "s":
+                continue
+            n, f = (int(v) for v in tk[1:].split("/"))
+            j = i
+            while j < len(evs) and evs[j][0] != "s":
+                j += 1
+            state["script"] = list(evs[i:j])
+            i = j
+            if p._encryption_key is None or p._decryption_key is None or not p.client or not p.client.is_connected:
+                break  # the library ended the session: nothing more is sent or read under these keys
+            # the accessory seals its response when the request has been written: F fragments under its next F counters
+            parts = [bytes([(len(sealed) + q) & 0xFF]) * 9 for q in range(f)]
+            total = sum(len(x) for x in parts)
+            for q, part in enumerate(parts):
+                pdu = (struct.pack("<BBBH", 2, 7, 0, total) if q == 0 else struct.pack("<BB", 0x82, 7)) + part
+                sealed.append(ChaCha20Poly1305(KEY_A2C).encrypt(n_ip(len(sealed)), pdu, b""))
+            body = b"b" * (max(n - 1, 0) * (64 - 16 - 2) + (64 - 16 - 7) if n > 1 else 1)
+            with mock.patch("aiohomekit.controller.ble.client.random.randrange", lambda a, b: 7):
+                try:
+                    async with p._ble_request_lock:
+                        await p._async_request_under_lock(OpCode.CHAR_WRITE, Char(), body)
+                    rec["outcomes"].append("ok")
+                except BaseException as e:  # noqa: BLE001
+                    rec["outcomes"].append(type(e).__name__)
+        rec["sealed"] = len(sealed)
+    try:
+        loop.run_until_complete(main())
+    except Exception as e:  # noqa: BLE001
+        rec["crash"] = f"{type(e).__name__}: {str(e)[:120]}"
+    return rec
+
+
+def oracle_ble_reads(rec):
+    out = []
+    if rec["crash"]:
+        out.append(("ble-reads/unexpected-exception", f"the library raised outside a request: {rec['crash']}"))
+    for i, a in enumerate(rec["accepted"]):
+        if a != i:
+            what = "a fragment the accessory never sealed" if a == "?" else f"fragment {a} when only fragment {i} could be next"
+            out.append(("ble-reads/accept-twice-or-out-of-order", f"ble: the accessory sealed fragments 0..{rec['sealed'] - 1}; the controller accepted {rec['accepted']} - {what}"))
+            break
+    if len(set(rec["nonces"])) != len(rec["nonces"]):
+        out.append(("ble-reads/nonce-reuse", f"ble: nonces {rec['nonces']} sealed under one key"))
+    return out
+
+
+def gen_ble_reads(rng):
+    evs = []
+    for _ in range(rng.randrange(1, 7)):
+        f = rng.choice([1, 1, 2, 2, 3])
+        evs.append("s%d/%d" % (rng.choice([1, 1, 2, 3]), f))
+        reads = ["n"] * f
+        if rng.random() < 0.5:
+            at = rng.randrange(f)
+            fault = rng.choice(["p1", "p2", "f1", "f1", "f2", "m", "x", "a"])
+            tail = rng.choice([[], ["n"] * f, [fault] + ["n"] * f, ["f1", "f1", "n", "n"], ["n", "f1", "n"], ["p1", "n", "n"]])
+            reads = reads[:at] + [fault] + tail
+        evs.extend(reads)
+    return evs
+
+
 # ---------------------------------------------------------------- BLE over several sessions
 def run_ble_sessions(loop, evs, seed=0):
     """one BlePairing over several sessions.  Events: ('Kr',) / ('Kf',) pair-verify against an accessory that honours /
@@ -236,9 +708,8 @@ def run_ble_sessions(loop, evs, seed=0):
     acc = {"shared": None, "sid": None, "prev_a2c": None, "a2c": None, "c2a": None, "resumed": 0, "full": 0}
 
     async def main():
-        p = blep.BlePairing.__new__(blep.BlePairing)
+        p = _mk_ble_pairing(dict(ident.pairing_data(connection="BLE"), AccessoryAddress="AA"))
         p._ble_request_lock = asyncio.Lock()
-        p.pairing_data = dict(ident.pairing_data(connection="BLE"), AccessoryAddress="AA")
         p.id = "x"
         p.device = None
         p.description = None
@@ -525,6 +996,44 @@ def run_coap_events(cts):
     return obs
 
 
+def run_coap_event_resource(loop, cts):
+    """the same event histories, delivered as PUT requests to the CoAP event resource of a real CoAPHomeKitConnection
+    (EventResource.render_put): an acceptance is an event that reaches the owner's event_received; every second event
+    carries two characteristic records (one acceptance per message)"""
+    obs = []
+    stats = {"valid": 0, "refused": 0, "raised": 0}
+
+    async def main():
+        owner = _IpOwner()
+        conn = coapc.CoAPHomeKitConnection(owner, "::1", 5683)
+        conn.enc_ctx = coapc.EncryptionContext(ChaCha20Poly1305(KEY_A2C), ChaCha20Poly1305(KEY_C2A), ChaCha20Poly1305(KEY_EV), "coap://x/", None)
+        conn.info = Pdu09Database(_accessories=[])
+        res = coapc.EventResource(conn)
+        for ct in cts:
+            if ct[0] == "g":
+                j = ct[1]
+                val = b"e%d" % j
+                body = bytes([1, len(val)]) + val  # HAP-Param-Value TLV
+                pl = struct.pack("<BHH", 0, 10, len(body)) + body
+                if j % 2:
+                    pl += struct.pack("<BHH", 0, 11, len(body)) + body
+                payload = ChaCha20Poly1305(KEY_EV).encrypt(n_coap(j), pl, b"")
+            else:
+                payload = bytes(20)
+            seen = len(owner.events)
+            try:
+                out = await res.render_put(coapc.Message(code=coapc.Code.PUT, payload=payload))
+                stats["valid" if out.code == coapc.Code.VALID else "refused"] += 1
+            except Exception:  # noqa: BLE001
+                stats["raised"] += 1
+            got = {bytes(v["value"]) for e in owner.events[seen:] for v in e.values()}
+            for v in sorted(got):
+                obs.append("a" + v[1:].decode())
+    loop.run_until_complete(main())
+    run_coap_event_resource.stats = stats
+    return obs
+
+
 def tok(ev):
     return ev[0] + (str(ev[1]) if len(ev) > 1 else "")
 
@@ -594,8 +1103,25 @@ def run(ctx: Ctx, driver: Driver):
         cases.append(case)
         outs.append(" ".join(obs) or "-")
         lines.append("ctr.ipble " + " ".join(tok(e) for e in evs))
+        for nm in run_ip.net.data_received_raised:
+            ctx.dist["ip:data_received raised " + nm] += 1
     ctx.sample(cases[len(cases) // 2])
     compare_with_model(ctx, "ip", cases, outs, lines, driver)
+    # ------------- IP, whole sessions end to end (real pair-verify, real HTTP layer and listeners; the network withholds, repeats, corrupts)
+    pre = ["e", "d0", "q", "e", "E", "e"]
+    sseqs = [pre + list(c) for d in range(1, ctx.budget(3, 4) + 1) for c in itertools.product(["d0", "d1", "d2", "d-1", "m0", "j", "D", "h0", "r"], repeat=d)]
+    for _ in range(ctx.budget(400, 8000)):
+        sseqs.append(gen_ip_session(rng))
+    for k, evs in enumerate(sseqs):
+        case = {"stream": "ip-session", "events": evs, "seed": ctx.seed * 100003 + k}
+        rec = run_ip_session(loop, evs, seed=case["seed"])
+        ctx.evaluations += 1
+        ctx.nontrivial.add(("ip-session", tuple(evs)))
+        account_ip_session(ctx, rec)
+        for sig, text in oracle_ip_session(rec):
+            ctx.violation(sig, text, case)
+        if k == len(sseqs) - 1:
+            ctx.sample(case)
     # ------------- BLE (request/response pairs)
     cases, outs, lines = [], [], []
     pairs = [[("s", n), r] for n in (1, 2) for r in (("g", 0), ("g", 1), ("g", 2), ("x",), ("a",))]
@@ -616,6 +1142,22 @@ def run(ctx: Ctx, driver: Driver):
         # in the model a cancelled read is 'abort'
         lines.append("ctr.ipble " + " ".join(tok(e) for e in evs))
     compare_with_model(ctx, "ble", cases, outs, lines, driver, canon=canon_until_close)
+    # ------------- BLE, responses of several fragments: every GATT read answered by the radio (next / replay / future / corrupt / cancelled)
+    rseqs = [["s1/1", "n", "s1/2"] + list(c) + ["s1/2", "n", "n", "n"] for d in range(1, ctx.budget(3, 5) + 1) for c in itertools.product(["n", "p1", "f1", "m", "x", "a"], repeat=d)]
+    rseqs += [["s2/3", "n"] + list(c) + ["s1/1", "n", "n"] for d in range(1, ctx.budget(3, 4) + 1) for c in itertools.product(["n", "p1", "f1", "x"], repeat=d)]
+    for _ in range(ctx.budget(300, 6000)):
+        rseqs.append(gen_ble_reads(rng))
+    for k, evs in enumerate(rseqs):
+        case = {"stream": "ble-reads", "events": evs, "seed": ctx.seed * 100003 + k}
+        rec = run_ble_reads(loop, evs, seed=case["seed"])
+        ctx.evaluations += 1
+        ctx.nontrivial.add(("ble-reads", tuple(evs)))
+        ctx.dist["ble-reads:fragments sealed by the accessory"] += rec["sealed"]
+        ctx.dist["ble-reads:fragments accepted"] += len(rec["accepted"])
+        for o in rec["outcomes"]:
+            ctx.dist["ble-reads:request " + o] += 1
+        for sig, text in oracle_ble_reads(rec):
+            ctx.violation(sig, text, case)
     # ------------- BLE over several sessions (pair-verify, pair-resume, traffic, failures)
     cases, outs, lines = [], [], []
     sess = [[("Kf",), ("s", 1), ("g", 0), ("Kr",), ("s", 1), ("g", 0)], [("Kf",), ("s", 2), ("g", 0), ("s", 1), ("g", 1), ("Kr",), ("s", 1), ("o", 0), ("Kr",), ("s", 1), ("g", 0)],
@@ -675,6 +1217,15 @@ def run(ctx: Ctx, driver: Driver):
         cases.append(case)
         outs.append(" ".join(obs) or "-")
         lines.append("ctr.event " + " ".join(tok(e) for e in evs))
+        # the same history through the public event resource (render_put -> owner.event_received)
+        robs = run_coap_event_resource(loop, evs)
+        ctx.evaluations += 1
+        rcase = {"stream": "coap-event-resource", "events": [tok(e) for e in evs]}
+        ctx.nontrivial.add(("coap-event-resource", tuple(rcase["events"])))
+        for k, v in run_coap_event_resource.stats.items():
+            ctx.dist["coap-event-resource:" + k] += v
+        for sig, text in analyse(ctx, "coap-event-resource", evs, robs, rcase):
+            ctx.violation(sig, text, rcase)
     compare_with_model(ctx, "coap-event", cases, outs, lines, driver)
     loop.close()
 
@@ -717,12 +1268,18 @@ def replay(ctx, driver, c):
     loop = simnet.VLoop()
     asyncio.set_event_loop(loop)
     try:
-        evs = [(e[0], int(e[1:])) if len(e) > 1 else (e,) for e in c["events"]]
+        if c["stream"] == "ip-session":
+            v = oracle_ip_session(run_ip_session(loop, list(c["events"]), seed=c.get("seed", 0)))
+            return v[0][1] if v else None
+        if c["stream"] == "ble-reads":
+            v = oracle_ble_reads(run_ble_reads(loop, list(c["events"]), seed=c.get("seed", 0)))
+            return v[0][1] if v else None
         if c["stream"] == "ble-sessions":
             evs = [(e,) if e in ("Kr", "Kf", "Kp", "x", "a") else (e[0], int(e[1:])) for e in c["events"]]
             v = analyse_sessions(run_ble_sessions(loop, evs, seed=c.get("seed", 0)))
             return v[0][1] if v else None
-        fn = {"ip": run_ip, "ble": run_ble, "coap": run_coap}.get(c["stream"])
+        evs = [(e[0], int(e[1:])) if len(e) > 1 else (e,) for e in c["events"]]
+        fn = {"ip": run_ip, "ble": run_ble, "coap": run_coap, "coap-event-resource": run_coap_event_resource}.get(c["stream"])
         obs = fn(loop, evs) if fn else run_coap_events(evs)
         v = analyse(ctx, c["stream"], evs, obs, c, run_coap.meta if c["stream"] == "coap" else None)
         return v[0][1] if v else None
